@@ -855,7 +855,7 @@ MALFORMED_TYPES = [
     "sms_keyword", "default_language", "public_key", "submission_url", "select_one_from_file f.xml or_other", "geopoint x",
     "select_one c\n", "select_one\tc", "begin\xa0group", "select_one ${zz}", "select_multiple ${a b}", "select_one ${",
     "select_one ${t0}x", "select_one x${t0}", "select_one ${t0}${t0}", "rank ${t0}.", "select_multiple ${t0}x", "rank ${t0}", "select_one ${t0}.csv",
-    "select_one_from_file ${t0}.csv", "select_one_external ${t0}",
+    "select_one_from_file ${t0}.csv", "select_one_external ${t0}", "entity", "option", "tag", "section",
 ]
 REP_VALID = ["text", "calculate", "select_one c or_other", "audit", "xml-external", "note"]
 NAMEV = ["q", None, "", "t0", "meta", "1a", "data", "instanceID", "Q"]
